@@ -4,6 +4,7 @@ package main
 
 import (
 	"fmt"
+	"go/ast"
 	"go/token"
 	"go/types"
 	"runtime/debug"
@@ -93,6 +94,18 @@ func (P *Program) verifyFunction(key string, opts VerifyOpts) (res *FnResult) {
 		c.sc.assume(c.evalClause(env, cl))
 	}
 	c.entry = st.clone()
+	// lemma instances about the entry state are available from the start
+	{
+		ee := &Env{c: c, pkg: fr.pkg, vars: map[string]Val{}, st: c.entry, old: c.entry, oldTop: top0, at: key}
+		for k, v := range fr.params {
+			ee.vars[k] = v
+		}
+		for _, u := range ct.Uses {
+			if u.inSlice(opts.Prop) && isLemmaUse(u.Expr) && allOld(u.Expr) {
+				c.sc.assume(c.evalClause(ee, u))
+			}
+		}
+	}
 	c.replay = &replayInfo{fn: fn, names: names, entry: c.entry, ctx: c}
 	for _, p := range fn.Params {
 		c.replay.params = append(c.replay.params, fr.env[p])
@@ -108,21 +121,32 @@ func (P *Program) verifyFunction(key string, opts VerifyOpts) (res *FnResult) {
 	// vacuity guard: the precondition must be satisfiable
 	c.smoke("smoke:pre", "true", fn.Pos())
 
-	out, oreach, rv := c.execBody(fr, st, "true")
+	out, oreach, rv, rets := c.execBodyEdges(fr, st, "true")
 	c.replay.result, c.replay.exit = rv, out
 
-	post := &Env{c: c, pkg: fr.pkg, vars: map[string]Val{}, st: out, old: c.entry, oldTop: top0, at: key}
-	for k, v := range fr.params {
-		post.vars[k] = v
+	// postconditions are evaluated on every return path separately (one named
+	// obligation, one query per path): no ite-merged heaps in the goals
+	var posts []*Env
+	var reaches []T
+	for _, re := range rets {
+		post := &Env{c: c, pkg: fr.pkg, vars: map[string]Val{}, st: re.st, old: c.entry, oldTop: top0, at: key}
+		for k, v := range fr.params {
+			post.vars[k] = v
+		}
+		bindResults(post.vars, fn.Signature, re.res)
+		posts = append(posts, post)
+		reaches = append(reaches, re.cond)
+		c.applyUses(ct, post, re.cond)
 	}
-	bindResults(post.vars, fn.Signature, rv)
-	c.applyUses(ct, post, oreach)
 	for _, cl := range ct.Ensures {
 		if !cl.inSlice(opts.Prop) {
 			continue
 		}
-		g := c.evalClause(post, cl)
-		c.oblige("postcondition", "post:"+cl.name(), cl.Tags, oreach, g, fn.Pos(), cl.Text)
+		var goals []T
+		for _, post := range posts {
+			goals = append(goals, c.evalClause(post, cl))
+		}
+		c.obligeParts("postcondition", "post:"+cl.name(), cl.Tags, reaches, goals, fn.Pos(), cl.Text)
 	}
 	c.frameObligations("frame", c.entry, out, locs, oreach, top0, fn.Pos())
 	c.smoke("smoke:exit", oreach, fn.Pos())
@@ -144,6 +168,10 @@ func (c *Ctx) applyUses(ct *Contract, env *Env, reach T) {
 			continue
 		}
 		g := c.evalClause(env, u)
+		if isLemmaUse(u.Expr) {
+			c.sc.assume(g)
+			continue
+		}
 		c.oblige("lemma", fmt.Sprintf("use:#%d", i+1), u.Tags, reach, g, token.NoPos, u.Text)
 	}
 }
@@ -248,3 +276,18 @@ func (P *Program) calleesOf(fn *ssa.Function, depth int) []*ssa.Function {
 
 var _ = strings.Contains
 var _ = types.Typ
+
+// allOld: every conjunct of a lemma `use` is wrapped in old(...).
+func allOld(x ast.Expr) bool {
+	switch x := x.(type) {
+	case *ast.ParenExpr:
+		return allOld(x.X)
+	case *ast.BinaryExpr:
+		return allOld(x.X) && allOld(x.Y)
+	case *ast.CallExpr:
+		if id, ok := x.Fun.(*ast.Ident); ok && id.Name == "old" {
+			return true
+		}
+	}
+	return false
+}
